@@ -60,9 +60,9 @@ ROOTS = {
     "fa.latent_x_i": ("factor_analysis:FactorAnalysisBase._compute_latent_x_per_class", {"X_i": ST, "UProd": "1 [C,R,R]", "UTinvSigma": "U-1 [R,F]", "latent_y_i": "1 [R]", "latent_z_i": "1 [F]"}, False, (None,), "1 [R,K]"),
     "fa.create_UVD": ("factor_analysis:FactorAnalysisBase.create_UVD", {}, False, (None,), None),
     # ---- linear transforms -----------------------------------------------------------------------------------
-    "wccn.fit": ("wccn:WCCN.fit", {"X": "U [N,D]", "y": "list:N:*"}, True, (False, True), None),
+    "wccn.fit": ("wccn:WCCN.fit", {"X": "U eqv [N,D]", "y": "list:N:*"}, True, (False, True), None),
     "wccn.transform": ("wccn:WCCN.transform", {"X": "list:K:U [N,D]"}, True, (None,), "list:K:1 K0.5 S-0.5"),
-    "white.fit": ("whitening:Whitening.fit", {"X": "U [N,D]"}, True, (False, True), None),
+    "white.fit": ("whitening:Whitening.fit", {"X": "U eqv [N,D]"}, True, (False, True), None),
     "white.transform": ("whitening:Whitening.transform", {"X": "U [N,D]"}, True, (None,), "1"),
 }
 
